@@ -61,6 +61,13 @@ NAMES = [b"a.txt", b"b", b"dir/c.txt", b"dir/sub/d", b"x y.txt",
          b"exec.sh", b"empty", b"big.bin", b"dir2/e", b"ln"]
 
 
+FAULT_COUNTERS = {
+    "clock:racy": "clock/zero advance between index write and edit",
+    "clock:skewed": "clock/skew and backward jumps",
+    "gran:coarse": "clock/coarse timestamp granularity (>= 1 s)",
+}
+
+
 def budget(tier):
     return 4000 if tier == "quick" else 250000
 
@@ -639,6 +646,8 @@ def run_plan(plan):
             out.append(v)
     stats["sim_ns"] = max(0, sim.clock.advanced)
     stats["clock:" + plan["clock_mode"]] = 1
+    if plan["gran_ns"] >= 10**9:
+        stats["gran:coarse"] = 1
     stats["policy:sequential"] = 1
     ih = util.h8([plan["tree"], plan["tree2"], plan["edits"],
                   plan["clock_mode"], plan["gran_ns"], plan["checkout_via"]])
